@@ -304,6 +304,170 @@ impl Tui {
         self.machine.load_program(path, bytecode);
         Ok(())
     }
+    /// Verification hook: headless, scripted session.  Every line of the script is one key
+    /// (`char CP`, `ctrl CP`, `enter`, `tab`, `backtab`, `left`, `right`, `up`, `down`, `home`, `end`,
+    /// `backspace`, `delete`), `size W H`, `draw`, `sweep W H` (draw at every size up to WxH) or
+    /// `new` (fresh session).  The real `handle_event` and the real `Interface` (on a `TestBackend`)
+    /// are used; one JSON line is printed per script line.
+    #[cfg(feature = "verif-hooks")]
+    pub fn verif_run_script(script: &str) {
+        use std::panic::{catch_unwind, AssertUnwindSafe};
+        use tui::backend::TestBackend;
+        fn msg(e: Box<dyn std::any::Any + Send>) -> String {
+            if let Some(s) = e.downcast_ref::<&str>() {
+                s.to_string()
+            } else if let Some(s) = e.downcast_ref::<String>() {
+                s.clone()
+            } else {
+                "panic".to_string()
+            }
+        }
+        fn esc(s: &str) -> String {
+            let mut o = String::new();
+            for c in s.chars() {
+                match c {
+                    '"' => o.push_str("\\\""),
+                    '\\' => o.push_str("\\\\"),
+                    '\n' => o.push_str("\\n"),
+                    c if (c as u32) < 0x20 => o.push_str(&format!("\\u{:04x}", c as u32)),
+                    c => o.push(c),
+                }
+            }
+            o
+        }
+        fn draw(t: &mut Tui, w: u16, h: u16) -> Result<(), String> {
+            catch_unwind(AssertUnwindSafe(|| {
+                let backend = TestBackend::new(w, h);
+                let mut term = Terminal::new(backend).unwrap();
+                term.draw(|mut f| {
+                    let area = f.size();
+                    f.render_stateful_widget(Interface, area, t);
+                })
+                .unwrap();
+            }))
+            .map_err(msg)
+        }
+        std::panic::set_hook(Box::new(|_| {}));
+        let args = InteractiveArgs::default();
+        let mut t = Tui::new(&args).expect("tui");
+        let mut size = (100u16, 40u16);
+        let plain = |code: KeyCode| KeyEvent { code, modifiers: Mod::empty() };
+        for (lineno, line) in script.lines().enumerate() {
+            let mut it = line.split_whitespace();
+            let kind = match it.next() {
+                Some(k) => k,
+                None => continue,
+            };
+            let mut num = || -> u32 { it.next().and_then(|x| x.parse().ok()).unwrap_or(0) };
+            let mut note = String::new();
+            let ev = match kind {
+                "new" => {
+                    t = Tui::new(&args).expect("tui");
+                    None
+                }
+                "size" => {
+                    size = (num() as u16, num() as u16);
+                    None
+                }
+                "draw" => None,
+                "sweep" => {
+                    let (mw, mh) = (num() as u16, num() as u16);
+                    let mut bad: Vec<String> = vec![];
+                    let mut count = 0u64;
+                    for w in 1..=mw {
+                        for h in 1..=mh {
+                            count += 1;
+                            if let Err(e) = draw(&mut t, w, h) {
+                                if bad.len() < 5 {
+                                    bad.push(format!("\"{}x{}: {}\"", w, h, esc(&e)));
+                                }
+                            }
+                        }
+                    }
+                    note = format!(",\"sweep\":{},\"sweep_panics\":[{}]", count, bad.join(","));
+                    None
+                }
+                "char" => Some(plain(KeyCode::Char(std::char::from_u32(num()).unwrap_or('?')))),
+                "ctrl" => Some(KeyEvent {
+                    code: KeyCode::Char(std::char::from_u32(num()).unwrap_or('?')),
+                    modifiers: Mod::CONTROL,
+                }),
+                "enter" => Some(plain(KeyCode::Enter)),
+                "tab" => Some(plain(KeyCode::Tab)),
+                "backtab" => Some(plain(KeyCode::BackTab)),
+                "left" => Some(plain(KeyCode::Left)),
+                "right" => Some(plain(KeyCode::Right)),
+                "up" => Some(plain(KeyCode::Up)),
+                "down" => Some(plain(KeyCode::Down)),
+                "home" => Some(plain(KeyCode::Home)),
+                "end" => Some(plain(KeyCode::End)),
+                "backspace" => Some(plain(KeyCode::Backspace)),
+                "delete" => Some(plain(KeyCode::Delete)),
+                _ => None,
+            };
+            let mut quit = false;
+            let mut key_panic = String::from("null");
+            if let Some(ev) = ev {
+                events::verif_push(ev);
+                match catch_unwind(AssertUnwindSafe(|| {
+                    t.maintain();
+                    t.handle_event()
+                })) {
+                    Ok(q) => quit = q,
+                    Err(e) => key_panic = format!("\"{}\"", esc(&msg(e))),
+                }
+            }
+            let draw_panic = match draw(&mut t, size.0, size.1) {
+                Ok(()) => String::from("null"),
+                Err(e) => format!("\"{}\"", esc(&e)),
+            };
+            let m = &t.machine;
+            let raw = m.verif_snapshot();
+            let regs: Vec<String> = m.registers().content().iter().map(|x| x.to_string()).collect();
+            let b = m.bus().board();
+            let mut ramsum: u64 = 0;
+            for (i, x) in m.bus().memory().iter().enumerate() {
+                ramsum = (ramsum + (i as u64 + 1) * (*x as u64)) % 65521;
+            }
+            let notif = match &t.notification_state.current {
+                Some(s) => format!("\"{}\"", esc(s)),
+                None => "null".to_string(),
+            };
+            println!(
+                "{{\"line\":{},\"op\":\"{}\",\"ed\":{},\"notif\":{},\"quit\":{},\"key_panic\":{},\"draw_panic\":{},\"size\":[{},{}],\"m\":{{\"regs\":[{}],\"st\":\"{:?}\",\"maddr\":{},\"ir\":{},\"inr\":[{},{},{},{}],\"outr\":[{},{}],\"asm\":{},\"autorun\":{},\"part\":\"{:?}\",\"di1\":{},\"temp_bits\":{},\"ai1_bits\":{},\"ai2_bits\":{},\"dasr\":{},\"ramsum\":{},\"misr\":{}}}{}}}",
+                lineno + 1,
+                esc(line),
+                t.input_field.verif_json(),
+                notif,
+                quit,
+                key_panic,
+                draw_panic,
+                size.0,
+                size.1,
+                regs.join(","),
+                m.state(),
+                raw.maddr,
+                raw.ir,
+                m.bus().read(0xFC),
+                m.bus().read(0xFD),
+                m.bus().read(0xFE),
+                m.bus().read(0xFF),
+                m.bus().output_fe(),
+                m.bus().output_ff(),
+                m.step_mode() == StepMode::Assembly,
+                m.auto_run_mode,
+                m.part,
+                b.digital_input1(),
+                b.temp().to_bits(),
+                b.analog_inputs()[0].to_bits(),
+                b.analog_inputs()[1].to_bits(),
+                b.dasr().bits(),
+                ramsum,
+                m.bus().read(0xF9),
+                note
+            );
+        }
+    }
     fn warn_about_failed_load(&mut self, error: Error) {
         warn!("Failed to run program: {}", error);
         let warning = format!("Failed to load program:\n\n{}", error);
